@@ -15,6 +15,7 @@ from .rfc7516.models import (
 from .rfc7516.registry import (
     JWERegistry as JWERegistry,
     default_registry,
+    construct_registry,
 )
 from .rfc7516.message import perform_encrypt, perform_decrypt
 from .rfc7516.compact import represent_compact, extract_compact
@@ -92,10 +93,7 @@ def encrypt_compact(
     :return: JWE Compact Serialization in bytes
     """
 
-    if algorithms is not None:
-        registry = JWERegistry(algorithms=algorithms)
-    elif registry is None:
-        registry = default_registry
+    registry = construct_registry(algorithms, registry)
 
     obj = CompactEncryption(protected, to_bytes(plaintext))
     recipient: Recipient[Key] = Recipient(obj)
@@ -137,10 +135,7 @@ def decrypt_compact(
     :return: object of the ``CompactEncryption``
     """
     obj = extract_compact(to_bytes(value))
-    if algorithms is not None:
-        registry = JWERegistry(algorithms=algorithms)
-    elif registry is None:
-        registry = default_registry
+    registry = construct_registry(algorithms, registry)
 
     recipient = obj.recipient
     assert recipient is not None
@@ -207,10 +202,7 @@ def encrypt_json(
     :return: JWE JSON Serialization in dict
     """
 
-    if algorithms is not None:
-        registry = JWERegistry(algorithms=algorithms)
-    elif registry is None:
-        registry = default_registry
+    registry = construct_registry(algorithms, registry)
 
     for recipient in obj.recipients:
         if sender_key and not recipient.sender_key:
@@ -243,10 +235,7 @@ def decrypt_json(
     :param sender_key: only required when using ECDH-1PU
     :return: an instance of ``GeneralJSONEncryption`` or ``FlattenedJSONEncryption``
     """
-    if algorithms is not None:
-        registry = JWERegistry(algorithms=algorithms)
-    elif registry is None:
-        registry = default_registry
+    registry = construct_registry(algorithms, registry)
 
     if "recipients" in data:
         general_obj = extract_general_json(data)  # type: ignore[arg-type]
